@@ -210,6 +210,8 @@ def analyse_path(path, fn_name=None, extra_alloc=(), carried=()):
             continue
         if addr[0] == 'idx' and sym.root_of(addr)[0] not in ('p', 'g', 'ld'):
             continue
+        if sym.object_of(addr)[0] == 'alloca':
+            continue          # a member of a local record: it dies with the function
         overwritten = False
         naddr = sym.norm(addr)
         for e2 in path.events:
